@@ -86,7 +86,11 @@ static const char * pick_file(hk_rng_t * r) {
   static char names[300][24];
   static int inited;
   if (!inited) { int i; for (i = 0; i < 300; i++) snprintf(names[i], sizeof(names[i]), "src_%03d.c", i); inited = 1; }
-  return names[hk_below(r, (uint64_t)g_files_used)];
+  /* consecutive positions usually lie in the same source file (a node that starts and ends in one file is the
+     common case in a real recording); the file changes at every fifth position on average */
+  static __thread int cur = -1;
+  if (cur < 0 || cur >= g_files_used || hk_below(r, 5) == 0) cur = (int)hk_below(r, (uint64_t)g_files_used);
+  return names[cur];
 }
 
 typedef unsigned long long ull;
